@@ -23,6 +23,7 @@ func init() {
 			"N5 a rebuilding FilterJson returns the original bytes only if no component changed: after a component filter whose result is not the input slice (sameSlice false, or a helper's changed signal) no path reaches a return of the data parameter, whatever the flag held before (all-elements engine). " +
 			"N6 validators and filters decode each value as the kind they test for (no json.Number, no interface{} destination); N7 StructType.IsAssignableFrom refuses on differing map dimensions only after the member types refused. " +
 			"N8 every iteration over a struct's members in an IsAssignableFrom implementation applies the relation, records a failure or found the TypeIds equal; N9 no return after a FilterJson call in package core hands back the call's input. " +
+			"N10 in the projection family a reader of ArrayType.Elem also reads ArrayType.Dim. " +
 			"NOT decided: idempotence, validity of the rebuilt JSON, int/float normalisation - all value-level.",
 		Assumptions: commonAssumptions,
 	}
@@ -115,6 +116,7 @@ func runC17(c *an.Ctx) {
 	ruleN7(c)
 	ruleMembersAll(c, "N8")
 	ruleN9(c)
+	ruleN10(c)
 }
 
 func ruleN1(c *an.Ctx) {
